@@ -88,6 +88,7 @@ class ScanWorld(fcd.FcdWorld):
         r = fcd.FcdWorld._deliver(self, m, st, itref, enumerate_)
         if not isinstance(r, ip.Outcome) and letter is not None and letter != au.END:
             st.ext["v:lastcls"] = letter
+            st.ext["v:nread"] = min(st.ext.get("v:nread", 0) + 1, 2)
         return r
 
     def str_ends_with(self, m, st, s, pat):
@@ -97,10 +98,28 @@ class ScanWorld(fcd.FcdWorld):
             raise AnalysisError("the scan asks how the label ends before it has read it to the end")
         return ip.boolean(st.ext.get("v:lastcls") == "S")
 
+    def str_strip_suffix(self, m, st, s, pat):
+        if not (isinstance(s, Str) and s.tag == self.input_tag and isinstance(pat, I) and pat.v == SPACE):
+            raise AnalysisError("strip_suffix(%r) on %r" % (pat, s))
+        if not st.ext.get("v:ended"):
+            raise AnalysisError("the scan asks how the label ends before it has read it to the end")
+        if st.ext.get("v:lastcls") != "S":
+            return ip.none()
+        return ip.some(Ref(("val", Str(("label-before-last",)))))
+
     def str_len(self, st, s):
         if isinstance(s, Str) and s.tag == self.input_tag:
             return Sym(("len",), "usize")
+        if isinstance(s, Str) and s.tag == ("label-before-last",):
+            return Sym(("boff", 0), "usize")  # where the last character (the one just read) starts
         return fcd.FcdWorld.str_len(self, st, s)
+
+    def compare_hook(self, st, op, a, b):
+        # `index == 0`: the byte offset of the character just read is 0 exactly for the first character read
+        if isinstance(a, Sym) and a.name == ("boff", 0) and isinstance(b, I) and b.v == 0 and not st.ext.get("v:ended"):
+            first = st.ext.get("v:nread", 0) <= 1
+            return {"Eq": first, "Ne": not first, "Gt": not first, "Le": first, "Ge": True, "Lt": False}[op]
+        return fcd.FcdWorld.compare_hook(self, st, op, a, b)
 
     def binop_hook(self, st, op, a, b):
         base = op.replace("WithOverflow", "").replace("Unchecked", "")
@@ -179,7 +198,27 @@ class RebuildWorld(fcd.FcdWorld):
             return ip.boolean(False)
         return ip.boolean(self.prefix_last == "EMPTY")
 
+    def iter_next_back(self, m, st, ref, it):
+        # head.chars().next_back(): the last character of the unchanged prefix (its class is this world's case)
+        if isinstance(it, Opq) and it.kind == "chars" and isinstance(it.data[0], Str) and it.data[0].tag == ("prefix",):
+            if self.prefix_last == "EMPTY":
+                return ip.none()
+            return ip.some(au.ch(au.MAX_AGE, self.prefix_last))
+        if isinstance(it, Opq) and it.kind == "chars" and isinstance(it.data[0], Str) and it.data[0].tag == ("bufcontent",):
+            # res.chars().next_back(): the last character of the output so far
+            d = self.last_desc(st)
+            if d is None:
+                return ip.none()
+            if d[0] == "char":
+                return ip.some(au.ch(d[1], d[2]))
+            if d[0] == "const":
+                return ip.some(I(d[1], "char"))
+            raise AnalysisError("last character of the output after a pop is not tracked")
+        return None
+
     def str_is_empty(self, st, s):
+        if isinstance(s, Str) and s.tag == ("prefix",):
+            return ip.boolean(self.prefix_last == "EMPTY")
         if isinstance(s, Str) and s.tag == ("bufcontent",):
             if st.ext.get("v:last") is not None:
                 return ip.boolean(False)
